@@ -125,3 +125,52 @@ func VerifC13Conc() {
 	verifAssert(verifQuiesce() == 0, "C13.conc.noleak")
 	verifReach("C13.conc.end")
 }
+
+func init() {
+	verifRegister("VerifC13Md", VerifC13Md)
+}
+
+// c13mDoc: two root blocks (the second one three levels deep) in a solver-chosen notation: indentation by tabs or by
+// blanks (one or two per level), roots as list rows or as # headings, bullet symbol of the indented rows
+func c13mDoc(who string) []string {
+	ind := "  "
+	switch verifChoose("indent", 0, 2) {
+	case 1:
+		ind = "\t"
+	case 2:
+		ind = " "
+	}
+	b := []string{"- ", "* ", "+ "}[verifChoose("bullet", 0, 2)]
+	if verifFlag("sharp") {
+		return []string{"# " + who + "0", b + who + "1", "# " + who + "2", b + who + "3", ind + b + who + "4"}
+	}
+	return []string{"- " + who + "0", ind + b + who + "1", "- " + who + "2", ind + b + who + "3", ind + ind + b + who + "4"}
+}
+
+// VerifC13Md: independent From-Markdown calls one after the other (verifN() = number of calls, 2..3): every call is a
+// massive-mode text output of a document in a notation of its own (tabs / one blank / two blanks, list roots / #
+// roots, bullet symbols); whatever the pipeline keeps from one call to the next (pooled parsers, worker state, ...)
+// must not show: each call returns nil and prints the blocks the simple mode prints for the same document.
+func VerifC13Md() {
+	n := verifN()
+	verifContext("C13.md")
+	for i := 0; i < n; i++ {
+		who := string(rune('a' + i))
+		rows := c13mDoc(who)
+		ws, wm := newVerifWriter(), newVerifWriter()
+		es := OutputFromMarkdown(ws, &verifReader{lines: rows})
+		em := OutputFromMarkdown(wm, &verifReader{lines: rows}, WithMassive(context.Background()))
+		verifAssert(es == nil, "C13.md.simple.nil")
+		verifAssert(em == nil, "C13.md.nil")
+		if es == nil && em == nil {
+			a, b := sortedBlocks(ws.out, who), sortedBlocks(wm.out, who)
+			same := len(a) == len(b)
+			for k := 0; same && k < len(a); k++ {
+				same = a[k] == b[k]
+			}
+			verifAssert(same, "C13.md.same")
+		}
+		verifAssert(verifQuiesce() == 0, "C13.md.noleak")
+	}
+	verifReach("C13.md.end")
+}
